@@ -8,4 +8,4 @@ def run(ctx):
     ctx.assumptions += ["int keys 1..3 and values 1..2; enumerations compared as sorted lists"]
 
 def replay(ctx, rp):
-    return vlib.generic_replay(ctx, rp)
+    return vlib.replay_any(ctx, rp)
